@@ -530,6 +530,22 @@ where
 {
     use mahf::components::{initialization, mutation, recombination};
     let cond = || LessThanN::iterations(n);
+    if name == "ident" {
+        // C15: configurations that differ only in an identifier type parameter
+        use mahf::identifier as mid;
+        let b = Configuration::builder();
+        let b = match p["id"].as_str().unwrap() {
+            "default" => b.evaluate(),
+            "mahf::Global" => b.evaluate_with::<mid::Global>(),
+            "mahf::A" => b.evaluate_with::<mid::A>(),
+            "mahf::B" => b.evaluate_with::<mid::B>(),
+            "user::A" => b.evaluate_with::<crate::userid::A>(),
+            "user::nested::A" => b.evaluate_with::<crate::userid::nested::A>(),
+            "user::Global" => b.evaluate_with::<crate::userid::Global>(),
+            other => panic!("unknown identifier {other}"),
+        };
+        return Ok(b.build());
+    }
     if let Some(c) = name.strip_prefix("comp:") {
         let pc = p["pc"].as_f64().unwrap_or(1.0);
         let rm = p["rm"].as_f64().unwrap_or(1.0);
@@ -828,11 +844,17 @@ pub fn main(args: &Args) -> usize {
                     "bits" => facts!(bit_template::<BitProblem>(name, params, n)),
                     _ => facts!(perm_template::<TspProblem>(name, params, n)),
                 };
-                let key = format!("{name}|{params}|{n}");
+                // `evaluate()` is `evaluate_with::<Global>()`: the same configuration
+                let key = if name == "ident" {
+                    format!("ident|{}", params["id"].as_str().map(|i| if i == "default" { "mahf::Global" } else { i }).unwrap())
+                } else {
+                    format!("{name}|{params}|{n}")
+                };
                 let nk = keys.len() as i64 + 1;
                 let key_id = *keys.entry(key).or_insert(nk);
                 let ns = sers.len() as i64 + 1;
-                let ser_id = *sers.entry(format!("{ron}#{named}")).or_insert(ns);
+                let _ = named;
+                let ser_id = *sers.entry(ron).or_insert(ns);
                 out.emit(&json!({"run": k, "t": name, "params": params, "n": n, "key": key_id, "ser": ser_id,
                                  "ron_ok": ron_ok, "clone_same": clone_same}));
             }
